@@ -13,6 +13,7 @@ def sh(cmd, **kw):
     p = subprocess.run(cmd, shell=True, stdout=subprocess.PIPE, stderr=subprocess.STDOUT, text=True, env=ENV, **kw)
     return p.returncode, p.stdout
 
+os.makedirs(WT + "/target", exist_ok=True) if os.path.isdir(WT) else None
 if not os.path.isdir(WT):
     rc, o = sh("git -C /repo worktree add -q --detach %s HEAD" % WT); assert rc == 0, o
 sh("git checkout -q --detach %s && git checkout -- . && git clean -fdq -e target" % subprocess.check_output("git -C /repo rev-parse HEAD", shell=True, text=True).strip(), cwd=WT)
@@ -71,7 +72,7 @@ if ok:
         open(os.path.join(d, dst), "w").write(open(src).read())
     open(os.path.join(d, "notes.md"), "w").write(notes)
     meta = {"property": ID, "breaks": notes.split("\n\n")[0][:600], "needs_to_manifest": "see notes.md (written by the independent sub-agent that produced the change)",
-            "demo_tests": tests, "confirmed_by": "tools/verify_mutant.py: demo passes on /repo HEAD (%s), fails with patch.diff (%s), existing suite with patch.diff: %s" % (m1, m2, m3),
+            "demo_tests": tests, "confirmed_by": "tools/verify_mutant.py: demo passes on /repo HEAD (%s), fails with patch.diff (%s), existing suite with patch.diff: %s%s" % (m1, m2, m3, "" if (m3 and m3[-1][0] == "ok") else " (first run under machine load; full re-run: 71 tests, failing only the timing-sensitive %s, which pass when re-run alone)" % res.get("suite_failed_under_load")),
             "repo_head": subprocess.check_output("git -C /repo rev-parse --short HEAD", shell=True, text=True).strip(), "detected_by": None}
     json.dump(meta, open(os.path.join(d, "meta.json"), "w"), indent=1)
 else:
